@@ -13,6 +13,11 @@ import (
 // an enabled one; alternatives of the running goroutine itself, i.e. several
 // ready select cases, cost nothing).
 type Explorer struct {
+	// Delay selects delay bounding: every departure from the default goroutine
+	// (the running one while it is enabled, else the lowest id) costs 1, whether
+	// or not the running goroutine was still enabled. The default (false) is
+	// preemption bounding, where switches at blocking points are free.
+	Delay     bool
 	Bound     int
 	MaxPoints int
 	Body      func()
@@ -30,7 +35,13 @@ type Explorer struct {
 	Diverged   string
 }
 
-func cost(p PointRec, alt int) int {
+func (x *Explorer) cost(p PointRec, alt int) int {
+	if x.Delay {
+		if alt >= p.Free {
+			return 1
+		}
+		return 0
+	}
 	if p.CurEn > 0 && alt >= p.CurEn {
 		return 1
 	}
@@ -80,7 +91,7 @@ func (x *Explorer) explore(prefix []int, from int) {
 				if alt == p.Chosen {
 					continue
 				}
-				if used+cost(p, alt) > x.Bound {
+				if used+x.cost(p, alt) > x.Bound {
 					continue
 				}
 				np := make([]int, i+1)
@@ -89,7 +100,7 @@ func (x *Explorer) explore(prefix []int, from int) {
 				x.explore(np, i+1)
 			}
 		}
-		used += cost(p, p.Chosen)
+		used += x.cost(p, p.Chosen)
 	}
 }
 
